@@ -74,7 +74,7 @@ pub fn compile(
 
 impl CompiledExpression {
     pub fn scheme<S: AsRef<str>>(&self, mdt: S) -> String {
-        let mdt = mdt.as_ref();
+        let mdt = manager::scheme_escape(mdt.as_ref());
         format!(
             "(use-modules (lipe) (lipe find){})
 
